@@ -49,7 +49,8 @@ from . import qltypes
 
 _BYTES_ESCAPE_RE = re.compile(rb'[\\\'\x00-\x1f\x7e-\xff]')
 _NON_PRINTABLE_RE = re.compile(
-    r'[\u0000-\u0008\u000B\u000C\u000E-\u001F\u007F\u0080-\u009F\n]')
+    r'[\u0000-\u0008\u000B\u000C\u000E-\u001F\u007F\u0080-\u009F\n'
+    r'\u202A-\u202E\u2066-\u2069]')
 _ESCAPES = {
     b'\\': b'\\\\',
     b'\'': b'\\\'',
@@ -69,6 +70,11 @@ def _bytes_escape(match: Match[bytes]) -> bytes:
         return _ESCAPES[char]
     except KeyError:
         return b'\\x%02x' % char[0]
+
+
+def _non_printable_escape(match: Match[str]) -> str:
+    char = ord(match.group(0))
+    return f'\\x{char:02x}' if char < 0x80 else f'\\u{char:04x}'
 
 
 def param_to_str(ident: str) -> str:
@@ -711,7 +717,12 @@ class EdgeQLSourceGenerator(codegen.SourceGenerator):
                         return
                 self.write(edgeql_quote.dollar_quote_literal(node.value))
                 return
-            self.write(repr(node.value))
+            # Python's repr() is not EdgeQL: it emits \xNN above 0x7f and
+            # may leave characters the lexer prohibits.
+            self.write(_NON_PRINTABLE_RE.sub(
+                _non_printable_escape,
+                edgeql_quote.quote_literal(node.value),
+            ))
         else:
             self.write(node.value)
 
